@@ -65,7 +65,7 @@ func init() {
 	}})
 	specs = append(specs, Spec{ID: "C18", Level: "exploration", MinDistinct: 50, Engines: []Engine{
 		{Name: "seq", Pkg: "./mon/c18", Procs: 1},
-		{Name: "file", Pkg: "./mon/c18", Env: []string{"VERIF_MODE=file"}},
+		{Name: "file", Pkg: "./mon/c18", Env: []string{"VERIF_MODE=file"}, RepeatThorough: 5},
 	}})
 	specs = append(specs, Spec{ID: "C14", Level: "exploration", MinDistinct: 50, Engines: []Engine{
 		{Name: "seq", Pkg: "./mon/c14", Procs: 1},
